@@ -51,6 +51,177 @@ def _c17_case(c):
     return {"raw": c}
 
 
+
+# ---- in-Coq re-evaluation of a sample (thorough tier): cross-checks extraction + OCaml driver ----
+
+_VM_PRELUDE = """From Coq Require Import QArith.
+From Oras Require Import Base.Prelude Generated.GC17 Model.Retry Proofs.Retry.
+Open Scope Z_scope.
+Inductive rshow := SResp (c : Z) | SErr (a b c : bool) | SPred | SCtx | SPanic | SNotRew | SGetBody | SFuel.
+Definition show_res (r : result) : rshow :=
+  match r with
+  | RResp c _ => SResp c | RErr a b c => SErr a b c | RPredErr => SPred | RCtx => SCtx | RPanic => SPanic
+  | RNotRewindable => SNotRew | RGetBodyFailed => SGetBody | RFuel => SFuel
+  end.
+Definition show_atts (orig : str) (tr : list event) : list (Z * option nat) :=
+  map (fun a => (fst a, if is_prefix (snd a) orig then Some (length (snd a)) else None)) (attempts tr).
+Definition show_T (orig : str) (o : rt_out) := (show_res (o_res o), o_time o, show_atts orig (o_trace o)).
+Definition show_A (orig : str) (a : auth_out) :=
+  (show_res (a_res a), a_time a, show_atts orig (a_first a), show_atts orig (a_second a), show_atts orig (a_third a)).
+"""
+
+
+def _z(x):
+    return "(%d)%%Z" % int(x)
+
+
+def _bytes(h):
+    if h in ("-", ""):
+        return "[]"
+    return "[" + "; ".join("%d%%N" % b for b in bytes.fromhex(h)) + "]"
+
+
+def _rule(c):
+    return {"R": "PRetry", "S": "PStop", "F": "PFail"}[c]
+
+
+def _vm_pred(s):
+    if s == "-":
+        return "default_predicate"
+    tbl, d, e = s.split(";")
+    ents = [] if tbl in ("-", "") else ["(%s, %s)" % (_z(x[:-1]), _rule(x[-1])) for x in tbl.split(",")]
+    return "(custom_predicate [%s] %s %s)" % ("; ".join(ents), _rule(d[1]), _rule(e[1]))
+
+
+def _vm_out(s):
+    if s == "TO":
+        return "(OErr true true true)"
+    if s == "ER":
+        return "(OErr false false false)"
+    if s[0] == "E":
+        return "(OErr %s %s %s)" % tuple("true" if c == "1" else "false" for c in s[1:4])
+    code, ra, chal = s[1:].split(":")
+    return "(OStatus %s %s %s%%N)" % (_z(code), _bytes(ra), chal)
+
+
+def _vm_atts(s):
+    if s == "-":
+        return "[]"
+    out = []
+    for a in s.split(","):
+        t, k = a.split(":")
+        out.append("(%s, %s)" % (_z(t), "None" if k == "BAD" else "Some %s%%nat" % k))
+    return "[" + "; ".join(out) + "]"
+
+
+def _vm_res(s):
+    if s.startswith("RESP"):
+        return "SResp %s" % _z(s[4:])
+    if s.startswith("EERR"):
+        return "SErr %s %s %s" % tuple("true" if c == "1" else "false" for c in s[4:7])
+    return {"EPRED": "SPred", "ECTX": "SCtx", "PANIC": "SPanic", "ENOTREWINDABLE": "SNotRew", "EGETBODY": "SGetBody", "FUEL": "SFuel"}[s]
+
+
+def _vm_goal(c, o):
+    p = c.split(" ")
+    if p[0] in ("T", "A", "W"):
+        _, pred, mr, mn, mx, tbl, dflt, cn, kind, data, script, _opts = p
+        pol = "(table_policy %s %s %s %s [%s] %s)" % (_vm_pred(pred), _z(mr), _z(mn), _z(mx),
+                                                     "; ".join(_z(x) for x in _c17_ints(tbl)), _z(dflt))
+        man = None
+        if kind[0] in "Mm":
+            man, kind = kind[0] == "M", kind[1:]
+        bk = {"N": "KNone", "R": "KReplay", "O": "KOneShot"}.get(kind[0]) or "(KGetBodyErr %s%%nat)" % kind[1:]
+        bd = "(mkBody %s %s)" % (bk, _bytes(data))
+        if man is not None:
+            bd = "(manifest_push_body %s %s)" % ("true" if man else "false", bd)
+        behs = []
+        if script != "-":
+            for b in script.split(";"):
+                oo, r, l = b.split("/")
+                behs.append("mkBeh %s %s %s" % (_vm_out(oo), "None" if r == "*" else "(Some %s%%nat)" % r, _z(l)))
+        sc = "[" + "; ".join(behs) + "]"
+        cancel = "None"
+        if cn != "-":
+            t, k = cn.split(":")
+            cancel = "(Some (%s, %s))" % (_z(t), "true" if k == "d" else "false")
+        f = dict(x.split("=") for x in o.split(" ")[1:])
+        res = _vm_res(o.split(" ")[0])
+        if p[0] == "T":
+            return "let bd := %s in show_T (bdata bd) (round_trip %s %s bd (init_state bd) %s 0) = (%s, %s, %s)" % (
+                bd, pol, cancel, sc, res, _z(f["end"]), _vm_atts(f["first"]))
+        return "let bd := %s in show_A (bdata bd) (auth_do %s %s %s bd %s) = (%s, %s, %s, %s, %s)" % (
+            bd, "true" if p[0] == "W" else "false", pol, cancel, sc, res, _z(f["end"]),
+            _vm_atts(f["first"]), _vm_atts(f["second"]), _vm_atts(f["third"]))
+    if p[0] == "D":
+        _, pred, mr, mn, mx, tbl, dflt, att, out = p
+        pol = "(table_policy %s %s %s %s [%s] %s)" % (_vm_pred(pred), _z(mr), _z(mn), _z(mx),
+                                                     "; ".join(_z(x) for x in _c17_ints(tbl)), _z(dflt))
+        want = {"STOP": "ODStop", "FAIL": "ODFail", "PANIC": "ODPanic"}.get(o) or "ODWait %s" % _z(o[1:])
+        return "project_decision (generic_retry %s %s %s) = %s" % (pol, _z(att), _vm_out(out), want)
+    if p[0] == "B":
+        _, which, mr, mn, mx, base, fn, fd, jn, jd, att, out, seen = p
+        want = {"YES": "VYes", "NO": "VNo", "UNJUDGED": "VUnjudged"}[o]
+        sn = {"STOP": "ODStop", "FAIL": "ODFail", "PANIC": "ODPanic"}.get(seen) or "(ODWait %s)" % _z(seen[1:])
+        if which == "D":
+            return "accept_decision exp_backoff_guarded default_max_retry default_min_wait default_max_wait default_eparams %s %s %s = %s" % (
+                _z(att), _vm_out(out), sn, want)
+        if int(fd) <= 0 or int(jd) <= 0:
+            return None
+        return "accept_decision exp_backoff_guarded %s %s %s (mkE %s (%s # %s) (%s # %s)) %s %s %s = %s" % (
+            _z(mr), _z(mn), _z(mx), _z(base), fn, fd, jn, jd, _z(att), _vm_out(out), sn, want)
+    return None
+
+
+def _c17_vm_sample(d, tier, coq, build, want=300):
+    import os, subprocess, collections
+    if tier != "thorough" and not os.environ.get("VERIF_C17_VM"):
+        return []
+    outs = {}
+    with open(os.path.join(d, "model.txt")) as f:
+        for l in f:
+            i, _, o = l.rstrip("\n").partition(" ")
+            outs[i] = o
+    quota = {"T": 90, "A": 60, "W": 50, "D": 40, "B": 60}
+    total, stride, got = collections.Counter(), collections.Counter(), collections.Counter()
+    with open(os.path.join(d, "cases.txt")) as f:
+        for l in f:
+            c = l.split(" ", 2)
+            if len(c) > 1 and len(l) <= 2500:
+                total[c[1]] += 1
+    goals = []
+    with open(os.path.join(d, "cases.txt")) as f:
+        for l in f:
+            i, _, c = l.rstrip("\n").partition(" ")
+            k = c.split(" ", 1)[0]
+            if k not in quota or got[k] >= quota[k] or len(l) > 2500 or i not in outs:
+                continue
+            stride[k] += 1
+            if (stride[k] - 1) % max(1, total[k] // quota[k]) != 0:
+                continue
+            g = _vm_goal(c, outs[i])
+            if g:
+                got[k] += 1
+                goals.append((i, g))
+    vdir = os.path.join(build, "vm")
+    os.makedirs(vdir, exist_ok=True)
+    vf = os.path.join(vdir, "C17_cases.v")
+    with open(vf, "w") as f:
+        f.write(_VM_PRELUDE)
+        for i, g in goals:
+            f.write("\n(* %s *)\nGoal %s.\nProof. vm_compute. reflexivity. Qed.\n" % (i, g))
+    p = subprocess.run(["coqc", "-R", coq, "Oras", "-w", "-notation-overridden", vf], cwd=vdir, timeout=1500,
+                       stdout=subprocess.PIPE, stderr=subprocess.STDOUT, text=True)
+    with open(os.path.join(d, "vm_sample.txt"), "w") as f:
+        f.write("%d goals %s rc=%d\n%s" % (len(goals), dict(got), p.returncode, p.stdout[-3000:]))
+    if p.returncode != 0:
+        return ["vm_compute re-evaluation of %d sampled cases inside Coq disagrees with the extracted runner (or does not type-check): %s"
+                % (len(goals), p.stdout[-1200:])]
+    if len(goals) < want // 2:
+        return ["vm_compute sample too small: %d goals" % len(goals)]
+    return []
+
+
 CONFIG = {
     "properties_file": "Properties/C17.v",
     "proof_files": ["Base/Prelude.v", "Proofs/Retry.v"],
@@ -60,6 +231,7 @@ CONFIG = {
     "harness": "c17",
     "harness_test": True,
     "case_to_replay": _c17_case,
+    "post_model": _c17_vm_sample,
     "assumptions": [
         "float64 arithmetic of ExponentialBackoff (math.Pow, products, float64->int64 conversion) is modelled with exact rationals; out-of-range conversions are an arbitrary function parameter (oob) of the theorems, the random source rand.Int64N an arbitrary function (rnd); the correspondence accepts observed pauses within a 1e-9 relative rounding allowance and leaves points within that allowance of a decision boundary unjudged",
         "strconv.ParseInt(s, 10, 64) is hand-modelled (parse_int64: sign, decimal digits, saturation on range errors, 0 on syntax errors) and compared with the implementation on a pool of Retry-After values",
